@@ -6,6 +6,7 @@ mask < 8 (forced options are assumed to be legal enum values, as the Rust types 
 import FastQr.Proofs.Invariance
 import FastQr.Props.C05
 import FastQr.Props.C11
+import FastQr.Finite.TablesMasksBound
 
 namespace FastQr.Proofs
 open FastQr Model Spec Finite
@@ -30,15 +31,13 @@ theorem placeOnMatrix_mask_lt (bytes : Array Nat) (l : ECL) (v : Nat) (forced : 
   | some m => simpa using hf m rfl
   | none =>
     simp only [Option.getD_none]
-    have ho := Props.C11.C11_masks_order
+    have ho := Finite.masks_lt
     apply selectBest_lt
-    · rw [ho]; decide
+    · exact ho.2
     · intro c hc
       simp only [candidates, List.map_map, List.mem_map, Function.comp] at hc
       obtain ⟨m, hm, rfl⟩ := hc
-      rw [ho] at hm
-      simp only [List.mem_cons, List.not_mem_nil, or_false] at hm
-      rcases hm with rfl | rfl | rfl | rfl | rfl | rfl | rfl | rfl <;> (show _ < 8; simp)
+      exact ho.1 m hm
 
 /-- a successful build returns the final matrix of its version / level / mask -/
 theorem build_final (inp : List Nat) (o : Opts) (ho : LegalOpts o) (b : Built)
